@@ -274,6 +274,8 @@ def run(ctx):
     for r in ctx.pmap(work_prefix, items, chunksize=2):
         ctx.merge(r)
     cfgs = [(T, s, p, n, 2 if ctx.quick else 3, ctx.tier) for s in (0, 1, 2715646, 2715647) for p in (1, 2, 51, 102) for n in (0, 1, 2)]
+    # periods that do not divide the hyperframe, started shortly before the wrap so that the script crosses it
+    cfgs += [(T, s, p, 1, 4 if ctx.quick else 5, ctx.tier) for s in (2715645, 2715647, 5) for p in (100, 7, 3, 1000)]
     for r in ctx.pmap(work_config, cfgs):
         ctx.merge(r)
     stops = [(T, 2 if ctx.quick else 3, s, p, 1, ctx.tier) for s in (0, 2715647) for p in (1, 2)]
